@@ -82,8 +82,11 @@ type Layout struct {
 	// lexer mode entered after "jump " has no whitespace rule); only the stored replay case sets it.
 	JumpBlanks int     `json:"jump_blanks,omitempty"`
 	Tape       []uint8 `json:"tape,omitempty"` // consumed in order by every layout decision; exhausted = 0 = canonical choice
-	pos        int
-	used       map[string]int
+	// LongNoise: length of the first comment line at column 0 and of the first whitespace-only line (0: ordinary)
+	LongNoise int `json:"long_noise,omitempty"`
+	longDone  [2]bool
+	pos       int
+	used      map[string]int
 }
 
 var canonicalLayout = Layout{Unit: 4}
@@ -154,6 +157,16 @@ func (p *printer) noise() {
 			p.b.WriteString("\n")
 			p.lay.note("blank-line")
 		case 2:
+			if p.lay.LongNoise > 0 && !p.lay.longDone[0] {
+				p.lay.longDone[0] = true
+				ch := " "
+				if p.lay.Unit == 0 {
+					ch = "\t"
+				}
+				p.b.WriteString(strings.Repeat(ch, p.lay.LongNoise) + "\n")
+				p.lay.note("whitespace-only-line-long")
+				break
+			}
 			if p.lay.Unit == 0 {
 				p.b.WriteString("\t\t\n")
 			} else {
@@ -161,6 +174,12 @@ func (p *printer) noise() {
 			}
 			p.lay.note("whitespace-only-line")
 		case 3:
+			if p.lay.LongNoise > 0 && !p.lay.longDone[1] {
+				p.lay.longDone[1] = true
+				p.b.WriteString("// " + strings.Repeat("long comment ", p.lay.LongNoise/13+1) + "\n")
+				p.lay.note("comment-line-long")
+				break
+			}
 			p.b.WriteString("// comment at column 0\n")
 			p.lay.note("comment-line-col0")
 		case 4:
@@ -362,6 +381,7 @@ func (p *printer) stmt(s *Stmt) {
 // renderScript prints every file of the script in the given layout.
 func renderScript(sc *Script, lay *Layout) []string {
 	lay.pos = 0
+	lay.longDone = [2]bool{}
 	lay.used = nil
 	var out []string
 	for _, f := range sc.Files {
